@@ -229,6 +229,21 @@ def run(chk: Check, tier: str):
     import engines
 
     rng = random.Random(chk.seed)
+    # ---- the enumeration loop as a state machine: exact for every family over 3 keys and EVERY order in which models may come
+    import tlc
+    from common import machinery_failure
+
+    for flt, want_violation in (("sorted", False), ("asFound", True)):
+        res = tlc.run("MC_McsEnum", tlc.cfg_text(invariants=["Exact", "NoSupersetOfEarlier", "Bounded"], constants={"Filter": flt}), f"C15_mcsenum_{flt}", timeout=1800)
+        if want_violation:
+            if res.violated != "Exact":
+                machinery_failure("MC_McsEnum: the unsorted superset filter does not violate Exact (vacuous)")
+            chk.cov["wrong_variant_detected"] = "superset filter in enumeration order violates Exact"
+        else:
+            if res.violated:
+                machinery_failure(f"MC_McsEnum: {res.violated} violated by the specification itself")
+            tlc.require_ok(res, "MC_McsEnum")
+            chk.add_tlc("MC_McsEnum", res, "all 256 families over 3 keys x all enumeration orders")
     # ---- (a) CNF faithfulness
     sig2 = ["a", "b"]
     f0, f1 = all_formulas(sig2, 0), all_formulas(sig2, 1)
